@@ -20,12 +20,12 @@ package lister
 //@ ensures [closed] req != nil && result0.State != pb.ResponseState_SUCCEEDED ==> len(result0.Accounts) == 0 && len(result0.DistributedAccounts) == 0
 //@ ensures [own] req != nil ==> (forall k int :: 0 <= k && k < len(result0.Accounts) ==> result0.Accounts[k] != nil && (exists a any :: a in listing && result0.Accounts[k].Name == shown(a) && bytes(result0.Accounts[k].PublicKey) == pkOfAcc(a)))
 //@ ensures [own-dist] req != nil ==> (forall k int :: 0 <= k && k < len(result0.DistributedAccounts) ==> result0.DistributedAccounts[k] != nil && (exists a any :: a in listing && result0.DistributedAccounts[k].Name == shown(a) && bytes(result0.DistributedAccounts[k].PublicKey) == pkOfAcc(a)))
-//@ loop #1
+//@ loop #1 over range accounts
 //@ invariant [range] 0 <= _n && _n <= len(accounts) && res != nil && fresh(res) && res.Accounts != nil && fresh(res.Accounts) && res.DistributedAccounts != nil && fresh(res.DistributedAccounts)
 //@ invariant [listed] forall j int :: 0 <= j && j < len(accounts) ==> accounts[j] != nil && accounts[j] in listing
 //@ invariant [own] forall k int :: 0 <= k && k < len(res.Accounts) ==> res.Accounts[k] != nil && fresh(res.Accounts[k]) && allocated(res.Accounts[k]) && allocated(res.Accounts[k].PublicKey) && (exists a any :: a in listing && res.Accounts[k].Name == shown(a) && bytes(res.Accounts[k].PublicKey) == pkOfAcc(a))
 //@ invariant [own-dist] forall k int :: 0 <= k && k < len(res.DistributedAccounts) ==> res.DistributedAccounts[k] != nil && fresh(res.DistributedAccounts[k]) && allocated(res.DistributedAccounts[k]) && allocated(res.DistributedAccounts[k].PublicKey) && (exists a any :: a in listing && res.DistributedAccounts[k].Name == shown(a) && bytes(res.DistributedAccounts[k].PublicKey) == pkOfAcc(a))
-//@ loop #2
+//@ loop #2 over range distributedAccount.Participants()
 //@ invariant [ctx] 0 <= _n1 && _n1 < len(accounts) && pbAccount != nil && fresh(pbAccount) && res != nil && fresh(res) && res.Accounts != nil && fresh(res.Accounts) && res.DistributedAccounts != nil && fresh(res.DistributedAccounts) && pbAccount.Participants != nil && fresh(pbAccount.Participants)
 //@ invariant [cur] account == accounts[_n1] && account in listing && pbAccount.Name == shown(account) && bytes(pbAccount.PublicKey) == pkOfAcc(account) && allocated(pbAccount.PublicKey)
 //@ invariant [distinct] forall k int :: 0 <= k && k < len(res.DistributedAccounts) ==> res.DistributedAccounts[k] != pbAccount
@@ -43,7 +43,7 @@ package lister
 //@ requires [options] forall i int :: 0 <= i && i < len(params) ==> params[i] != nil
 //@ ensures [err] result1 != nil ==> result0 == nil
 //@ ensures [ok] result1 == nil ==> result0 != nil && result0.lister != nil
-//@ loop #1
+//@ loop #1 over range params
 //@ invariant [range] 0 <= _n && _n <= len(params)
 
 //@ func New
